@@ -89,6 +89,15 @@ def after(out: tuple) -> Any:
 
 
 DUMP = "|".join("{{ %s }}" % v for v in POOL) + "|{{ forloop.index }}|{{ i }}|{{ w }}|{{ it }}"
+# a loop of the partial's own: its parent loop is undefined whatever loops the caller is in
+DUMP_LOOP = ("{% for y in (1..2) %}<{{ forloop.parentloop.index }}/{{ forloop.parentloop.length }}:{{ forloop.parentloop.name }}"
+             ":{{ forloop.parentloop.parentloop.index }}:{{ forloop.length }}>{% endfor %}")
+# arrow functions with free variables: evaluated in the partial's scope, not the caller's
+DUMP_LAMBDA = ("{{ (1..3) | where: q => q != a | join: '' }}/{{ (1..3) | map: q => b | join: '.' }}/{{ (1..3) | find: q => q == n }}"
+               "/{{ (1..3) | reject: (q, j) => j == c | join: '' }}/{{ (1..3) | has: q => q == s }}/{{ (1..3) | find_index: q => t }}")
+
+
+MEXTRA = ["", DUMP_LOOP, DUMP_LAMBDA, DUMP_LOOP + DUMP_LAMBDA]
 
 
 def lit(r) -> str:
@@ -104,9 +113,16 @@ def preludes(r, k: int) -> list[str]:
         pre += "".join("{%% increment %s %%}" % v for v in POOL if r.random() < 0.3)
         if r.random() < 0.5:
             pre += "{% cycle 'p', 'q' %}"
+        if r.random() < 0.5:
+            # the caller has already applied the context-aware (lambda) filters the partial uses
+            pre += "".join("{%% assign zz = (1..2) | %s: q => q %%}" % f for f in ("where", "map", "find", "reject", "has", "find_index") if r.random() < 0.7)
         wrap_open, wrap_close = "", ""
         kind = r.random()
-        if kind < 0.3:
+        if kind < 0.15:
+            # caller loops of different lengths and names: forloop.parentloop must stay undefined in the partial
+            wrap_open = "{%% for %s in (1..%d) %%}{%% if forloop.last %%}" % (r.choice(["i", "k", "a"]), r.choice([2, 3]))
+            wrap_close = "{% endif %}{% endfor %}"
+        elif kind < 0.3:
             wrap_open, wrap_close = "{% for i in (1..1) %}", "{% endfor %}"
         elif kind < 0.5:
             wrap_open, wrap_close = "{%% with w: %s, a: %s %%}" % (lit(r), lit(r)), "{% endwith %}"
@@ -125,7 +141,8 @@ def oracle(chk: C.Check, r, thorough: bool) -> tuple[int, int, list]:
         # (a) the partial / macro cannot read the caller's variables
         arg = r.choice(["", ", a: 7", ", w: 'W'", ", b: g"])
         bind = r.choice(["", " with 5", " with 5 as it", " for (1..2)" if False else ""])
-        partial = DUMP + r.choice(["", "{% increment a %}", "{% render 'q' %}", "{% assign z = 1 %}{{ z }}"])
+        partial = DUMP + r.choice(["", "{% increment a %}", "{% render 'q' %}", "{% assign z = 1 %}{{ z }}", DUMP_LOOP, DUMP_LAMBDA,
+                                   DUMP_LOOP + DUMP_LAMBDA])
         loader = {"p": partial, "q": "q:" + DUMP}
         variants = preludes(r, 3)
         outs = []
@@ -143,9 +160,11 @@ def oracle(chk: C.Check, r, thorough: bool) -> tuple[int, int, list]:
             samples.append({"sources": [s for s, _ in outs], "region": region(outs[0][1])})
         # macro
         margs = r.choice(["", ", 7", ", p: 'P'"])
+        mx = r.randrange(len(MEXTRA))
         outs = []
         for pre, wo, wc in variants:
-            src = f"{{% macro m, p, q = 'Q' %}}{DUMP}|{{{{ p }}}}|{{{{ q }}}}{{% endmacro %}}{pre}{wo}<<{{% call m{margs} %}}>>{wc}"
+            mextra = MEXTRA[mx]
+            src = f"{{% macro m, p, q = 'Q' %}}{DUMP}|{{{{ p }}}}|{{{{ q }}}}{mextra}{{% endmacro %}}{pre}{wo}<<{{% call m{margs} %}}>>{wc}"
             outs.append((src, render(src, loader, {"g": "G"})))
         n += len(outs)
         if len({repr(region(o)) for _, o in outs}) != 1:
@@ -227,10 +246,16 @@ def oracle(chk: C.Check, r, thorough: bool) -> tuple[int, int, list]:
             # inside an included partial: the include's own argument must not leak either
             lam_cases.append((f"{{% assign {x} = 'OUT' %}}{{% assign kk = 'OUT' %}}{{% include 'lp', kk: 'K' %}}={{{{ {x} }}}}={{{{ kk }}}}",
                               {"lp": f"{{% assign r = xs | {f}: {x} => {cond} %}}"}))
+        # two-parameter arrow functions; find / find_index / has stop at the first match
+        for f, cond in [("find", "j == 1"), ("find", f"{x} == 1"), ("has", "j == 0"), ("has", f"{x} == 2"), ("find_index", "j == 1"),
+                        ("find", "j == 7"), ("where", "j > 0"), ("map", "j")]:
+            lam_cases.append((f"{{% assign {x} = 'OUT' %}}{{% assign j = 'OUT' %}}{{% assign r = xs | {f}: ({x}, j) => {cond} %}}={{{{ {x} }}}}={{{{ j }}}}", {}))
+            lam_cases.append((f"{{% assign {x} = 'OUT' %}}{{% assign j = 'OUT' %}}{{% for q in (1..2) %}}{{% with w: 1 %}}{{% assign r = xs | {f}: ({x}, j) => {cond} %}}"
+                              f"{{% endwith %}}{{% endfor %}}={{{{ {x} }}}}={{{{ j }}}}", {}))
     for src, ld in lam_cases:
         got = render(src, ld, xs)
         n += 1
-        want_tail = "=OUT=OUT" if "kk" in src else "=OUT"
+        want_tail = "=OUT=OUT" if ("kk" in src or ", j)" in src) else "=OUT"
         if got[0] != "T" or not got[1].endswith(want_tail):
             chk.finding("oracle:lambda-parameter-leaks", f"{src!r} gave {got}", {"source": src, "loader": ld, "data": xs, "got": got})
     # ... also when the construct is left through an error: the context is balanced
@@ -318,6 +343,6 @@ def main(chk: C.Check, build: C.Build) -> None:
         "tier_proved": "Core interpreter: frame balance for every outcome, isolation of render/call, refusal of include",
     })
     chk.assumptions += [
-        "auto_escape off, default Undefined policy; tablerow, translate arguments and lambda parameters are outside the model (lambda scope push/pop is exercised by the C19 check's lambda filters)",
+        "auto_escape off, default Undefined policy; tablerow and translate arguments are outside the model",
         "generator finalisation timing on interpreters without reference counting is outside",
     ]
